@@ -250,6 +250,70 @@ func init() {
 			}
 			e.close()
 		}
+		// A refresh RESETS the age: the refreshing request hands out a re-stamped credential with the full lifetime (Max-Age = cookie-expire),
+		// and the server-side entry it re-saves — under the same ticket — is stored with that lifetime again (a TTL, not "forever").
+		// The same after a second login of the same browser.
+		for _, redis := range []bool{false, true} {
+			e, err := newEnv(c, proxyCfg{Redis: redis, CookieExpire: time.Hour, CookieRefresh: 10 * time.Minute, InjectRequest: defaultInject()})
+			if err != nil {
+				c.violation("HARNESS", "env: "+err.Error(), nil)
+				continue
+			}
+			checkEntry := func(when string) {
+				if !redis {
+					return
+				}
+				for _, k := range e.mr.Keys() {
+					if strings.HasSuffix(k, ".lock") {
+						continue
+					}
+					if ttl := e.mr.TTL(k); ttl < time.Hour-5*time.Second || ttl > time.Hour+5*time.Second {
+						c.violation("C09", "the server-side entry is not stored with the configured lifetime "+when+" (no TTL at all means it never expires)",
+							map[string]interface{}{"ttl": ttl.String(), "cookie_expire": "1h", "when": when})
+					}
+				}
+			}
+			b := newBrowser()
+			if lr := e.login(b, u, "/x"); lr.OK {
+				checkEntry("after the login")
+				// the browser's session, 20 minutes later (the stored copy is aged by the harness): due for refresh
+				s := e.sessionFor(u, 20*time.Minute)
+				s.RefreshToken = fmt.Sprintf("rt-rs-%d", time.Now().UnixNano())
+				e.registerRT(s.RefreshToken, u)
+				rec := &respRecorder{h: http.Header{}}
+				if err := e.proxy.sessionStore.Save(rec, mustReq(e, b.cookieHeader()), s); err == nil { // re-saved under the browser's own ticket / cookie
+					b.apply(&http.Response{Header: rec.h})
+					r := e.do(reqSpec{Target: "/app/x", Cookie: b.cookieHeader()})
+					c.casen(fmt.Sprintf("c09e|refresh-restamp|%v", redis), fmt.Sprint(r.Status))
+					c.count("c09:refresh-restamp")
+					restamped := false
+					for _, ck := range r.Cookies {
+						if isSessionCookieNameH(e.opts.Cookie.Name, ck.Name) && ck.MaxAge > 0 && ck.Value != "" {
+							restamped = true
+							if ck.MaxAge != 3600 {
+								c.violation("C09", "the credential re-issued by a refresh carries another Max-Age than the configured lifetime", map[string]interface{}{"max_age": ck.MaxAge, "redis": redis})
+							}
+							if ts, ok := stampOf(ck.Value); ok && time.Since(ts) > 5*time.Second && !strings.Contains(ck.Name, "_") {
+								c.violation("C09", "the credential re-issued by a refresh is not re-stamped (its issue time is still the old one)", map[string]interface{}{"stamp_age": time.Since(ts).String(), "redis": redis})
+							}
+						}
+					}
+					if len(r.Hits) > 0 && !restamped {
+						c.violation("C09", "a refresh was made (the request was served with the refreshed session) but no re-stamped credential was handed to the browser: the session will be rejected cookie-expire after the LOGIN although it was refreshed in between",
+							map[string]interface{}{"redis": redis, "status": r.Status})
+					}
+					checkEntry("after the refresh re-saved it under the same ticket")
+				}
+				// a second login in the same browser (the ticket cookie is presented and re-used)
+				if lr2 := e.login(b, u, "/y"); lr2.OK {
+					c.count("c09:second-login")
+					checkEntry("after a second login of the same browser")
+				}
+			} else {
+				c.violation("HARNESS", "login failed (refresh re-stamp)", nil)
+			}
+			e.close()
+		}
 		// The same credential presented AGAIN after its lifetime ran out (it was accepted — and possibly remembered — while
 		// valid): the window is checked on every presentation, and a refresh that did not happen (token endpoint unreachable
 		// at transport level) re-stamps nothing
@@ -328,7 +392,7 @@ func init() {
 			e.close()
 		}
 		c.close([]string{"c09:probe-before-any-callback", "c09:probe-after-callback-1", "c09:max-age", "c09:not-refreshable", "c09:max-age-split", "c09:expired-during-lock-wait",
-			"c09:issue-stamp", "c09:presented-again-after-expiry", "c09:refresh-transport-failure"})
+			"c09:issue-stamp", "c09:presented-again-after-expiry", "c09:refresh-transport-failure", "c09:refresh-restamp", "c09:second-login"})
 	})
 
 	registerSuite("storeleak", func(c *suiteCtx) {
